@@ -192,6 +192,9 @@ func genArtelaCall(r *RNG, fork string) []Macro {
 
 const trivialAddr = "0xc0de0000000000000000000000000000000000ff"
 
+// fatAcct holds 2^256-1 wei in the pre-state (a possible pre-state, if not a likely one)
+const fatAcct = "0xfa7000000000000000000000000000000000fa70"
+
 func genC03(seed uint64, tier string) *Scenario {
 	r := NewRNG(seed)
 	sc := &Scenario{Prop: "C03", Seed: seed, Fork: forkOrder[r.Intn(len(forkOrder))], Block: genBlock(r), Tracer: "rec"}
@@ -199,7 +202,8 @@ func genC03(seed uint64, tier string) *Scenario {
 		sc.Fork = pick(r, []string{"Berlin", "London", "Shanghai", "Cancun", "Istanbul"})
 	}
 	sc.Accounts = append(sc.Accounts, Account{Addr: eoaA, Balance: "0xffffffffffffffffffff"}, Account{Addr: eoaB, Balance: "0x3e8"},
-		Account{Addr: codeless, Balance: "0x1"}, Account{Addr: trivialAddr, Nonce: 1, RawCode: "0x60005000"})
+		Account{Addr: codeless, Balance: "0x1"}, Account{Addr: trivialAddr, Nonce: 1, RawCode: "0x60005000"},
+		Account{Addr: fatAcct, Balance: "0xffffffffffffffffffffffffffffffffffffffffffffffffffffffffffffffff"})
 	g := &genCtx{fork: sc.Fork, cancun: sc.Fork == "Cancun"}
 	n := 1 + r.Intn(3)
 	for i := 0; i < n; i++ {
@@ -247,6 +251,10 @@ func genC03(seed uint64, tier string) *Scenario {
 				}
 			}
 			curProg = saved
+			if r.P(1, 8) {
+				// value transfer to an account whose balance is already the largest 256-bit number
+				p.M = append(p.M, Macro{K: "call", Op: "CALL", A: []string{"GAS", fatAcct, hxu(uint64(1 + r.Intn(5))), "0x0", "0x0", "0x0", "0x0"}, Flag: "m:0x0"})
+			}
 			a.Code = p
 		}
 		sc.Accounts = append(sc.Accounts, a)
